@@ -33,7 +33,7 @@ M = [
     ("C06-quotify-no-backslash-escape", "C06", "vyxal/elements.py", 'lhs.replace("\\\\", "\\\\\\\\").replace("`", "\\\\`")', 'lhs.replace("`", "\\\\`")'),
     ("C06-string-newline-not-escaped", "C06", "vyxal/transpile.py", '            elif char == "\\n":\n                temp += "\\\\n"', '            elif char == "\\r":\n                temp += "\\\\n"'),
     ("C07-modulo-fmod", "C07", "vyxal/elements.py", "(NUMBER_TYPE, NUMBER_TYPE): lambda: lhs % rhs,", "(NUMBER_TYPE, NUMBER_TYPE): lambda: vyxalify(math.fmod(lhs, rhs)),"),
-    ("C07-floor-div-via-int", "C07", "vyxal/elements.py", "(NUMBER_TYPE, NUMBER_TYPE): lambda: 0 if rhs == 0 else lhs // rhs,", "(NUMBER_TYPE, NUMBER_TYPE): lambda: 0 if rhs == 0 else int(lhs / rhs),"),
+    ("C07-floor-div-via-int", "C07", "vyxal/elements.py", "        else vyxalify(sympy.floor(sympy.sympify(lhs) / rhs)),", "        else vyxalify(int(sympy.sympify(lhs) / rhs)),"),
     ("C08-vectorise-swaps-list-scalar", "C08", "vyxal/elements.py", "            (list, SCALAR_TYPE): lambda: (\n                safe_apply(function, x, rhs, ctx=ctx) for x in lhs\n            ),\n            (list, list): lambda: (\n                safe_apply(function, x, y, ctx=ctx)\n                for x, y in vy_zip(lhs, rhs, ctx=ctx)", "            (list, SCALAR_TYPE): lambda: (\n                safe_apply(function, rhs, x, ctx=ctx) for x in lhs\n            ),\n            (list, list): lambda: (\n                safe_apply(function, x, y, ctx=ctx)\n                for x, y in vy_zip(lhs, rhs, ctx=ctx)"),
     ("C08-zip-fill-is-one", "C08", "vyxal/elements.py", "                except StopIteration:\n                    right_item = 0", "                except StopIteration:\n                    right_item = 1"),
     ("C09-swap-duplicates-lhs", "C09", "vyxal/elements.py", '"rhs, lhs = pop(stack, 2, ctx); stack.append(rhs); "\n        "stack.append(lhs)"', '"rhs, lhs = pop(stack, 2, ctx); stack.append(rhs); "\n        "stack.append(lhs); stack[0:1] = stack[0:1] if len(stack) < 5 else [lhs]"'),
